@@ -570,17 +570,27 @@ type Contracts struct {
 	Globals  []string
 	Immutables []Immutable
 	Regions  map[string]string // heap family of a slice-typed field -> read-only region of its backing arrays
+	Dets     map[string]*DetFunc // library calls modelled as deterministic functions of their arguments, by call name
+	DetNames map[string]*DetFunc // ... by spec name
 	Source   string
 }
 
+// DetFunc: det NAME "call name" kind — the library call is a pure, deterministic function of
+// its arguments (an uninterpreted function the specs can apply as NAME(args)); kind is the
+// result shape: string, iface, bool, int.
+type DetFunc struct {
+	Name, Call, Kind string
+}
+
 var clauseKeywords = map[string]bool{
+	"det": true,
 	"spec": true, "rec": true, "pred": true, "func": true, "region": true, "immutable": true, "lib": true, "iface": true, "requires": true, "ensures": true,
 	"loop": true, "returns": true, "modifies": true, "ghost": true, "oracle": true,
-	"const": true, "pure": true, "trusted": true, "assert": true, "assume": true, "deadcode": true, "applies": true, "witness": true, "decreases": true, "refines": true, "params": true, "count": true, "callsites": true,
+	"const": true, "pure": true, "trusted": true, "assert": true, "assume": true, "cover": true, "deadcode": true, "applies": true, "witness": true, "decreases": true, "refines": true, "params": true, "count": true, "callsites": true,
 }
 
 func loadContracts(paths ...string) (*Contracts, error) {
-	cs := &Contracts{Funcs: map[string]*FuncContract{}, Specs: map[string]*SpecFunc{}, Consts: map[string]string{}, Regions: map[string]string{}}
+	cs := &Contracts{Funcs: map[string]*FuncContract{}, Specs: map[string]*SpecFunc{}, Consts: map[string]string{}, Regions: map[string]string{}, Dets: map[string]*DetFunc{}, DetNames: map[string]*DetFunc{}}
 	for _, path := range paths {
 		data, err := os.ReadFile(path)
 		if err != nil {
@@ -653,6 +663,17 @@ func (cs *Contracts) parse(path, data string) error {
 				im.Except = f[2]
 			}
 			cs.Immutables = append(cs.Immutables, im)
+			cur = nil
+		case "det":
+			f := strings.Fields(body)
+			call, rest, ok := anchorText(strings.TrimSpace(body[len(f[0]):]))
+			kind := strings.TrimSpace(rest)
+			if !ok || (kind != "string" && kind != "iface" && kind != "bool" && kind != "int") {
+				return fail(fmt.Errorf("bad det clause: det NAME \"call name\" string|iface|bool|int"))
+			}
+			d := &DetFunc{Name: f[0], Call: call, Kind: kind}
+			cs.Dets[call] = d
+			cs.DetNames[f[0]] = d
 			cur = nil
 		case "region":
 			// region TYPE.field : the arrays referenced by that slice field are never written after the field is set
@@ -853,10 +874,17 @@ func (cs *Contracts) parse(path, data string) error {
 					return fail(err)
 				}
 				cur.Ghosts = append(cur.Ghosts, Clause{Kind: "ghost", Name: strings.TrimSpace(parts[0]), E: e, Text: body})
-			case "requires", "ensures", "assert", "assume":
+			case "requires", "ensures", "assert", "assume", "cover":
 				cl := Clause{Kind: kw, Text: body}
 				b := body
-				if kw == "assert" || kw == "assume" {
+				if kw == "assert" && strings.HasPrefix(b, "atcall ") {
+					// assert atcall `call text prefix` [name] expr : checked before every call whose source text starts with the prefix
+					at, rest, ok := anchorText(b[7:])
+					if !ok {
+						return fail(fmt.Errorf("bad anchor"))
+					}
+					cl.Kind, cl.At, b = "assertcall", strings.Join(strings.Fields(at), ""), rest
+				} else if kw == "assert" || kw == "assume" || kw == "cover" {
 					// assert at "source line text"[#k] [name] expr
 					if !strings.HasPrefix(b, "at ") {
 						return fail(fmt.Errorf("%s needs an anchor: %s at \"line text\" expr", kw, kw))
